@@ -10,7 +10,7 @@ SPIL is distributed in the hope that it will be useful, but WITHOUT ANY WARRANTY
 You should have received a copy of the GNU Lesser General Public License along with SPIL.
 If not, see <https://www.gnu.org/licenses/>.
 """
-from spil.conf import extension_alias  # type: ignore # from sid conf
+from spil.conf import extension_alias, leaf_keys  # type: ignore # from sid conf
 from spil.conf import sip, ors
 from spil.sid.core import query_helper
 
@@ -95,8 +95,9 @@ def extensions(sid):
     # query part
     if query:
         query_dict = query_helper.to_dict(query)
-        if query_dict.get("ext"):  # FIXME: "ext" is hard coded.
-            query_dict["ext"] = handle_extension(query_dict.get("ext"))
+        for key in set(leaf_keys.values()):
+            if query_dict.get(key):
+                query_dict[key] = handle_extension(query_dict.get(key))
         query = query_helper.to_string(query_dict)
 
     return sip.join(newsid) + ("?" + query if query else "")
